@@ -72,21 +72,43 @@ class Sel:
 
 
 class Mod:
-    def __init__(self, name, file, uses='', items=(), text_before='', text_after=''):
+    def __init__(self, name, file, uses='', items=(), text_before='', text_after='', export=False):
         self.name = name
         self.file = file
         self.uses = uses
         self.items = list(items)
         self.text_before = text_before
         self.text_after = text_after
+        self.export = export
 
 
 # ------------------------------------------------------------------------------ source files
 
+def dep_dir(crate):
+    """source directory of a dependency at the version pinned by /repo/Cargo.lock (cargo registry)"""
+    lock = open(os.path.join(REPO, 'Cargo.lock')).read()
+    m = re.search(r'name = "%s"\nversion = "([^"]+)"' % re.escape(crate), lock)
+    if not m:
+        raise InfraError('dependency %s not found in Cargo.lock' % crate)
+    ver = m.group(1)
+    base = os.path.expanduser('~/.cargo/registry/src')
+    for d in sorted(os.listdir(base)):
+        cand = os.path.join(base, d, '%s-%s' % (crate, ver))
+        if os.path.isdir(cand):
+            return cand, ver
+    raise InfraError('source of %s %s not found in the cargo registry' % (crate, ver))
+
+
 class Source:
     def __init__(self, relpath):
         self.relpath = relpath
-        path = os.path.join(REPO, relpath)
+        if relpath.startswith('dep:'):
+            crate, rest = relpath[4:].split('/', 1)
+            d, ver = dep_dir(crate)
+            path = os.path.join(d, rest)
+            self.relpath = 'dep:%s-%s/%s' % (crate, ver, rest)
+        else:
+            path = os.path.join(REPO, relpath)
         try:
             self.text = open(path, encoding='utf-8').read()
         except OSError as e:
@@ -229,8 +251,8 @@ def transform(toks, it, hoist_names=None, hoist_suffix=None, is_member=False, re
                 res.dropped.append(('use', ''.join(x.text for x in toks[j:k + 1])))
                 j = k + 1
                 continue
-            if t.kind == 'ident' and t.text in ('debug_assert_eq', 'debug_assert') and toks[j + 1].text == '!':
-                # a debug assertion panics in debug builds: rewritten to a Verus obligation (C13) --
+            if t.kind == 'ident' and t.text in ('debug_assert_eq', 'debug_assert', 'assert') and toks[j + 1].text == '!':
+                # an assertion macro panics when violated: rewritten to a Verus obligation (C13: no panic) --
                 # `debug_assert_eq!(a, b);` -> `let dbg_l__ = a; let dbg_r__ = b; assert(dbg_l__ == dbg_r__);`
                 k = match_close(toks, j + 2)
                 args = [[]]
@@ -673,7 +695,7 @@ def gen_mod(mod, sources):
                         hoist_names[k] = v
         elif it.kind == 'fn':
             hoist_names.update(hoist_map(it))
-        if it.kind == 'impl' and sel.drop_fns:
+        if it.kind in ('impl', 'trait') and sel.drop_fns:
             it = copy.copy(it)
             it.members = [m for m in it.members if not (m.kind == 'fn' and m.name in sel.drop_fns)]
             for d in sel.drop_fns:
